@@ -101,7 +101,7 @@ def _info_for(sd, ident, addr):
 
 
 def prime_cache(app, info):
-    cache = app.deviceInfoCache
+    cache = getattr(app, "callers_cache", app.deviceInfoCache)       # the program's own reference to the cache it supplied
     cache.cache[info.deviceIdentifier] = info
     cache.cache[info.address] = info
     cache.update_device_info(info)
